@@ -344,7 +344,7 @@ func testValues(attr, ty string) (string, string) {
 }
 
 func runC09(res *Result, tier string, seed int64, replay string) {
-	res.Rule = "the attribute store: seeded heads (one to three mj-attributes blocks, mj-all / mj-class / tag entries in any order, attributes defined again later, classes without a name, the name not first) parsed by the real parser, globals.ProcessAttributesFromHead vs the Lean Model Store.build (driver `store`) on every (tag / class, attribute) query; EXHAUSTIVE matrix: every body component in a legal context × every attribute of its table × source level {mj-class, tag default, mj-all} with a typed non-default value, the same classes listed in both orders on two elements of one document, three levels at once (the class value equal to the mj-all value, the tag default between them), and every ordered pair of competing levels (winner value V1, loser value V2 ≠ V1); css-class (always accepted) supplied by the tag default, by mj-all and by both, for every component; plus seeded whole documents with heads. Oracle: the document is rewritten by the Spec — the Lean `winner` (driver `res`) is written as the element's own attribute for every (element, attribute) any source defines, the mj-attributes block is dropped — and the rendered <body> must be byte-identical to the body of the original. Non-trivial (informative) = cell whose attribute changes the body at all when set on the element; distinct by (component, attribute, level)"
+	res.Rule = "the attribute store: seeded heads (one to three mj-attributes blocks, mj-all / mj-class / tag entries in any order, attributes defined again later, classes without a name, the name not first) parsed by the real parser, globals.ProcessAttributesFromHead vs the Lean Model Store.build (driver `store`) on every (tag / class, attribute) query; EXHAUSTIVE matrix: every body component in a legal context × every attribute of its table × source level {mj-class, tag default, mj-all} with a typed non-default value, the same classes listed in both orders on two elements of one document, an own attribute with an empty value over each lower level, three levels at once (the class value equal to the mj-all value, the tag default between them), and every ordered pair of competing levels (winner value V1, loser value V2 ≠ V1); css-class (always accepted) supplied by the tag default, by mj-all and by both, for every component; plus seeded whole documents with heads. Oracle: the document is rewritten by the Spec — the Lean `winner` (driver `res`) is written as the element's own attribute for every (element, attribute) any source defines, the mj-attributes block is dropped — and the rendered <body> must be byte-identical to the body of the original. Non-trivial (informative) = cell whose attribute changes the body at all when set on the element; distinct by (component, attribute, level)"
 	drv, err := startDriverPool(4)
 	if err != nil {
 		res.Disagree(Violation{Sig: "driver-missing", What: err.Error()})
@@ -726,6 +726,38 @@ func runC09(res *Result, tier string, seed int64, replay string) {
 				find(d).Set("mj-class", "m1")
 			}), find, attr, v1, "mj-class>mj-all", informative)
 			noop(withHead(func(at, d *Node) { at.Kids = append(at.Kids, mk("mj-all", attr, v2), mk(tag, attr, v1)) }), find, attr, v1, "tag-default>mj-all", informative)
+			// an own attribute written with an EMPTY value is no value (the resolvers skip it): what the lower levels supply is used
+			// exactly as if the attribute were not written — class, tag default, mj-all
+			for _, lv := range []string{"mj-class", "tag-default", "mj-all"} {
+				if attr == "name" && lv == "mj-class" {
+					continue
+				}
+				dEmpty := withHead(func(at, d *Node) {
+					switch lv {
+					case "mj-class":
+						at.Kids = append(at.Kids, mk("mj-class", "name", "m1", attr, v1))
+						find(d).Set("mj-class", "m1")
+					case "tag-default":
+						at.Kids = append(at.Kids, mk(tag, attr, v1))
+					default:
+						at.Kids = append(at.Kids, mk("mj-all", attr, v1))
+					}
+				})
+				dAbsent := dEmpty.Clone()
+				find(dEmpty).Set(attr, "")
+				count++
+				key := tag + "/" + attr + "/" + lv + ">own-empty"
+				res.Case(key, informative)
+				if bodyFor(dEmpty) != bodyFor(dAbsent) {
+					res.Count("cell=fails")
+					if !reported[key] {
+						reported[key] = true
+						res.Violate(Violation{Sig: key + "|source-dependent", Kind: "cell", What: fmt.Sprintf("<%s %s=\"\">: an empty own value changes what the %s value gives", tag, attr, lv), Input: map[string]string{"source": dEmpty.MJML(), "inlined": dAbsent.MJML()}})
+					}
+				} else {
+					res.Count("cell=holds")
+				}
+			}
 			// three levels at once: the class wins over the tag default and over mj-all — also when mj-all carries the very value
 			// of the class (a store that drops "redundant" entries must not fall through to the level in between), and with three
 			// different values
